@@ -600,3 +600,8 @@ def run_process_bounded(ctx):
 unit("stale.process[bounded<=3-predecessors]", props=["C05", "C03", "C08", "C14"],
      functions=[(REL, "_get_stale_nodes.<locals>.process"), (REL, "_get_stale_nodes.<locals>.process_no_stale_ancestor"), ("_util/__init__.py", "safe_max")],
      assumptions=["bounded stand-in: number of predecessors <= 3"], min_obligations=3, kind="bounded", max_paths=200000)(run_process_bounded)
+
+
+from .sysprobe import replay_for as _replay_for  # noqa: E402
+
+REPLAYS = [("stale.*", _replay_for(['C03', 'C05', 'C15', 'C14'], 1500))]
